@@ -665,3 +665,242 @@ Proof.
   exists (mk256 0 0 0 1), (mk256 0 0 0 1). unfold wf256; cbn [q0 q1 q2 q3]. rewrite W_val.
   split; [lia|]. split; [lia|]. eexists. split; [vm_compute; reflexivity|vm_compute; discriminate].
 Qed.
+
+(* ------------------------------------------------------------------ *)
+
+Fixpoint lval (l : list Z) : Z := match l with [] => 0 | x :: l' => x + W * lval l' end.
+Definition allW (l : list Z) : Prop := Forall inW l.
+
+Lemma mul_row_spec ai : inW ai -> forall b r carry, allW b -> allW r -> inW carry ->
+  (length b < length r)%nat -> nth (length b) r 0 = 0 ->
+  allW (mul_row ai b r carry) /\ length (mul_row ai b r carry) = length r /\
+  lval (mul_row ai b r carry) = lval r + ai * lval b + carry /\
+  (forall i, (length b < i)%nat -> nth i (mul_row ai b r carry) 0 = nth i r 0).
+Proof.
+  intros Hai. induction b as [|bj b IH]; intros r carry Hb Hr Hc Hlen Hz.
+  - destruct r as [|rj r]; [simpl in Hlen; lia|]. simpl in Hz. subst rj. simpl.
+    inversion Hr as [|? ? _ Hr']; subst. split; [constructor; assumption|]. split; [reflexivity|].
+    split; [lia|]. intros [|i] Hi; [lia|reflexivity].
+  - destruct r as [|rj r]; [simpl in Hlen; lia|].
+    inversion Hb as [|? ? Hbj Hb']; subst. inversion Hr as [|? ? Hrj Hr']; subst.
+    cbn [mul_row].
+    destruct (mul64 ai bj) as [hi lo] eqn:E0. apply mul64_eq in E0; try assumption. destruct E0 as (Hhi & Hlo & E0).
+    destruct (add64 lo rj 0) as [lo1 c1] eqn:E1. apply add64_eq in E1; try assumption; try lia. destruct E1 as (Hlo1 & Hc1 & E1).
+    destruct (add64 lo1 carry 0) as [lo2 c2] eqn:E2. apply add64_eq in E2; try assumption; try lia. destruct E2 as (Hlo2 & Hc2 & E2).
+    assert (Hhi2 : inW (hi + c1 + c2)).
+    { unfold inW in *. pose proof W_pos. assert (ai * bj <= (W - 1) * (W - 1)) by nia. rewrite W_val in *. lia. }
+    simpl in Hlen, Hz.
+    destruct (IH r (hi + c1 + c2) Hb' Hr' Hhi2 ltac:(lia) Hz) as (A1 & A2 & A3 & A4).
+    split; [constructor; assumption|]. split; [simpl; lia|]. split.
+    + cbn [lval]. rewrite A3. replace (ai * (bj + W * lval b)) with (ai * bj + W * (ai * lval b)) by ring.
+      rewrite <- E0. lia.
+    + intros [|i] Hi; [lia|]. simpl. apply A4. simpl in Hi. lia.
+Qed.
+
+Lemma mul_rows_spec b : allW b -> forall a r, allW a -> allW r ->
+  length r = (length a + length b)%nat -> (forall i, (length b <= i)%nat -> nth i r 0 = 0) ->
+  allW (mul_rows a b r) /\ length (mul_rows a b r) = length r /\
+  lval (mul_rows a b r) = lval r + lval a * lval b.
+Proof.
+  intros Hb. induction a as [|ai a IH]; intros r Ha Hr Hlen Hz.
+  - simpl. split; [assumption|]. split; [reflexivity|]. destruct r; simpl; lia.
+  - inversion Ha as [|? ? Hai Ha']; subst.
+    destruct r as [|rj r]; [simpl in Hlen; lia|]. cbn [mul_rows].
+    destruct (mul_row_spec ai Hai b (rj :: r) 0 Hb Hr ltac:(unfold inW; pose proof W_pos; lia)
+                ltac:(simpl in *; lia) (Hz _ (le_n _))) as (A1 & A2 & A3 & A4).
+    destruct (mul_row ai b (rj :: r) 0) as [|r0 rest] eqn:E; [simpl in A2; lia|].
+    inversion A1 as [|? ? Hr0 Hrest]; subst.
+    destruct (IH rest Ha' Hrest) as (B1 & B2 & B3).
+    + simpl in A2, Hlen. lia.
+    + intros i Hi. specialize (A4 (S i) ltac:(lia)). simpl in A4. rewrite A4. apply (Hz (S i)). lia.
+    + split; [constructor; assumption|]. split; [simpl in *; lia|].
+      cbn [lval] in *. rewrite B3. lia.
+Qed.
+
+Lemma u256_mul_exact u v : wf256 u -> wf256 v ->
+  (val256 u * val256 v < W4 -> exists r, u256_mul u v = Ok r /\ wf256 r /\ val256 r = val256 u * val256 v) /\
+  (W4 <= val256 u * val256 v -> u256_mul u v = Panic).
+Proof.
+  destruct u as [a3 a2 a1 a0], v as [b3 b2 b1 b0]. unfold wf256, u256_mul; cbn [q0 q1 q2 q3].
+  intros (Ha3 & Ha2 & Ha1 & Ha0) (Hb3 & Hb2 & Hb1 & Hb0).
+  assert (HA : allW [a0; a1; a2; a3]) by (unfold allW; repeat (apply Forall_cons; [assumption|]); apply Forall_nil).
+  assert (HB : allW [b0; b1; b2; b3]) by (unfold allW; repeat (apply Forall_cons; [assumption|]); apply Forall_nil).
+  assert (HZ : allW [0;0;0;0;0;0;0;0]) by (unfold allW; repeat (apply Forall_cons; [unfold inW; pose proof W_pos; lia|]); apply Forall_nil).
+  destruct (mul_rows_spec _ HB _ _ HA HZ eq_refl) as (R1 & R2 & R3).
+  { intros i Hi. do 8 (destruct i as [|i]; [reflexivity|]). destruct i; reflexivity. }
+  destruct (mul_rows [a0; a1; a2; a3] [b0; b1; b2; b3] [0; 0; 0; 0; 0; 0; 0; 0]) as [|r0 [|r1 [|r2 [|r3 [|r4 [|r5 [|r6 [|r7 [|x l]]]]]]]]];
+    try (simpl in R2; lia).
+  unfold allW in R1. repeat match goal with H : Forall _ (_ :: _) |- _ => inversion H; clear H; subst end.
+  assert (V : val256 (mk256 a3 a2 a1 a0) * val256 (mk256 b3 b2 b1 b0) =
+              r0 + W * (r1 + W * (r2 + W * (r3 + W * (r4 + W * (r5 + W * (r6 + W * r7))))))).
+  { cbn [lval] in R3. unfold val256; cbn [q0 q1 q2 q3]. rewrite Z.mul_0_r, !Z.add_0_r in R3.
+    rewrite R3. ring. }
+  rewrite V. clear V R3 R2 HA HB HZ. unfold val256, W4, W2, inW in *; cbn [q0 q1 q2 q3]. rewrite W_val in *.
+  split; intros H.
+  - assert (T : r4 + 18446744073709551616 * (r5 + 18446744073709551616 * (r6 + 18446744073709551616 * r7)) = 0).
+    { remember (r4 + 18446744073709551616 * (r5 + 18446744073709551616 * (r6 + 18446744073709551616 * r7))) as t eqn:Et.
+      assert (0 <= t) by lia. clear Et. lia. }
+    assert (r4 = 0) as -> by lia.
+    assert (T5 : r5 + 18446744073709551616 * (r6 + 18446744073709551616 * r7) = 0) by lia.
+    assert (r5 = 0) as -> by lia. assert (r6 = 0) as -> by lia. assert (r7 = 0) as -> by lia.
+    rewrite !Z.eqb_refl. cbn [andb]. eexists; split; [reflexivity|]. cbn [q0 q1 q2 q3]. lia.
+  - destruct (r4 =? 0) eqn:E4; [|reflexivity]. destruct (r5 =? 0) eqn:E5; [|reflexivity].
+    destruct (r6 =? 0) eqn:E6; [|reflexivity]. destruct (r7 =? 0) eqn:E7; [|reflexivity]. lia.
+Qed.
+
+(* ------------------------------------------------------------------ *)
+
+Lemma u256_le_spec u v : wf256 u -> wf256 v -> u256_le u v = (val256 u <=? val256 v).
+Proof.
+  intros Hu Hv. unfold u256_le. rewrite (u256_cmp_spec u v Hu Hv).
+  destruct (Z.compare_spec (val256 u) (val256 v)); simpl; symmetry; [apply Z.leb_le|apply Z.leb_le|apply Z.leb_gt]; lia.
+Qed.
+Lemma u256_lt_spec u v : wf256 u -> wf256 v -> u256_lt u v = (val256 u <? val256 v).
+Proof.
+  intros Hu Hv. unfold u256_lt. rewrite (u256_cmp_spec u v Hu Hv).
+  destruct (Z.compare_spec (val256 u) (val256 v)); simpl; symmetry; [apply Z.ltb_ge|apply Z.ltb_lt|apply Z.ltb_ge]; lia.
+Qed.
+Lemma u256_iszero_spec u : wf256 u -> u256_iszero u = (val256 u =? 0).
+Proof.
+  destruct u as [a3 a2 a1 a0]. unfold wf256, u256_iszero, val256; cbn [q0 q1 q2 q3]. rewrite W_val. intros H.
+  destruct (a3 =? 0) eqn:E3; destruct (a2 =? 0) eqn:E2; destruct (a1 =? 0) eqn:E1; destruct (a0 =? 0) eqn:E0;
+    cbn [andb]; symmetry; try (apply Z.eqb_eq; lia); apply Z.eqb_neq; lia.
+Qed.
+Lemma top_bit_clear u : wf256 u -> (q3 u <? 2^63) = (val256 u <? 2^255).
+Proof.
+  destruct u as [a3 a2 a1 a0]. unfold wf256, val256; cbn [q0 q1 q2 q3]. rewrite W_val. intros H.
+  destruct (a3 <? 2^63) eqn:E; symmetry; [apply Z.ltb_lt|apply Z.ltb_ge]; lia.
+Qed.
+Lemma shl1_val u : wf256 u -> val256 u < 2^255 -> wf256 (u256_shl u 1) /\ val256 (u256_shl u 1) = 2 * val256 u.
+Proof.
+  intros Hu H. destruct (u256_shl_spec u 1 Hu ltac:(lia)) as [A B]. split; [exact A|].
+  rewrite B. pose proof (val256_range u Hu). rewrite Z.mod_small; [lia|]. rewrite W4_val. lia.
+Qed.
+
+Section Div.
+Variable v : u256.
+Hypothesis Hv : wf256 v.
+Hypothesis Hv1 : 1 <= val256 v.
+
+Lemma div_inner_spec r : wf256 r -> forall fuel t m, wf256 t -> wf256 m ->
+  val256 t = val256 v * val256 m -> 1 <= val256 m -> val256 t <= val256 r ->
+  2^(257 - Z.of_nat fuel) <= val256 t ->
+  exists t' m', div_inner true fuel t m r = Some (t', m') /\ wf256 t' /\ wf256 m' /\
+     val256 t' = val256 v * val256 m' /\ 1 <= val256 m' /\ val256 t' <= val256 r < 2 * val256 t'.
+Proof.
+  intros Hr. induction fuel as [|f IH]; intros t m Ht Hm Htm Hm1 Htr Hf.
+  - exfalso. pose proof (val256_range r Hr). rewrite W4_val in *. change (257 - Z.of_nat 0) with 257 in Hf.
+    assert (H0 : 2^256 < 2^257) by (apply Z.pow_lt_mono_r; lia).
+    exact (Z.lt_irrefl _ (Z.lt_le_trans _ _ _ (Z.lt_trans _ _ _ (proj2 H) H0) (Z.le_trans _ _ _ Hf Htr))).
+  - cbn [div_inner negb orb]. rewrite (top_bit_clear t Ht).
+    destruct (val256 t <? 2^255) eqn:E; cbn [andb].
+    + apply Z.ltb_lt in E. destruct (shl1_val t Ht E) as [Ht' Vt'].
+      assert (Em : val256 m < 2^255) by nia.
+      destruct (shl1_val m Hm Em) as [Hm' Vm'].
+      rewrite (u256_le_spec _ _ Ht' Hr). rewrite Vt'.
+      destruct (2 * val256 t <=? val256 r) eqn:E2.
+      * apply Z.leb_le in E2. apply IH; try assumption; try lia.
+        rewrite Vt'. replace (257 - Z.of_nat (S f)) with (257 - Z.of_nat f - 1) in Hf by lia.
+        destruct (Z.le_gt_cases 1 (257 - Z.of_nat f)) as [G|G].
+        -- replace (257 - Z.of_nat f) with (Z.succ (257 - Z.of_nat f - 1)) by lia. rewrite Z.pow_succ_r by lia. lia.
+        -- assert (2 ^ (257 - Z.of_nat f) <= 1).
+           { destruct (Z.eq_dec (257 - Z.of_nat f) 0) as [->|]; [simpl; lia|]. rewrite Z.pow_neg_r by lia. lia. }
+           lia.
+      * apply Z.leb_gt in E2. exists t, m. split; [reflexivity|]. split; [assumption|]. split; [assumption|]. split; [assumption|]. split; [assumption|]. lia.
+    + apply Z.ltb_ge in E. exists t, m. pose proof (val256_range r Hr). rewrite W4_val in *.
+      split; [reflexivity|]. split; [assumption|]. split; [assumption|]. split; [assumption|]. split; [assumption|].
+      change (2^256) with (2 * 2^255) in *. lia.
+Qed.
+
+Lemma div_outer_spec u : wf256 u -> forall fuel q r, wf256 q -> wf256 r ->
+  val256 u = val256 q * val256 v + val256 r -> 2 * val256 r < 2^(Z.of_nat fuel) -> (1 <= fuel)%nat ->
+  exists q', div_outer true fuel v q r = Ok q' /\ wf256 q' /\ val256 q' = val256 u / val256 v.
+Proof.
+  intros Hu. induction fuel as [|f IH]; intros q r Hq Hr Hinv Hf H1; [lia|].
+  cbn [div_outer]. rewrite (u256_le_spec _ _ Hv Hr).
+  destruct (val256 v <=? val256 r) eqn:E.
+  - apply Z.leb_le in E.
+    assert (H1w : wf256 (mk256 0 0 0 1)) by (unfold wf256; cbn [q0 q1 q2 q3]; rewrite W_val; lia).
+    assert (V1 : val256 (mk256 0 0 0 1) = 1) by reflexivity.
+    destruct (div_inner_spec r Hr 257 v (mk256 0 0 0 1) Hv H1w ltac:(rewrite V1; lia) ltac:(rewrite V1; lia) E
+                ltac:(simpl; lia)) as (t & m & Ei & Ht & Hm & Htm & Hm1 & Htr).
+    rewrite Ei.
+    destruct (u256_sub_exact r t Hr Ht) as [S1 _]. destruct (S1 ltac:(lia)) as (r' & Er & Hr' & Vr').
+    pose proof (val256_range u Hu) as Ru. pose proof (val256_range q Hq) as Rq. pose proof (val256_range r Hr) as Rr.
+    destruct (u256_add_exact q m Hq Hm) as [A1 _].
+    assert (Hfit : val256 q + val256 m < W4) by nia.
+    destruct (A1 Hfit) as (q' & Eq & Hq' & Vq'). rewrite Er, Eq.
+    assert (Hr1 : 1 <= val256 r) by lia.
+    assert (Hf2 : (2 <= S f)%nat).
+    { destruct f; [change (Z.of_nat 1) with 1 in Hf; rewrite Z.pow_1_r in Hf; lia|lia]. }
+    apply IH; [exact Hq'|exact Hr'| | |lia].
+    + rewrite Vq', Vr', Hinv, Htm. ring.
+    + rewrite Vr'. rewrite Nat2Z.inj_succ, Z.pow_succ_r in Hf by lia. lia.
+  - apply Z.leb_gt in E. exists q. split; [reflexivity|]. split; [assumption|].
+    pose proof (val256_range r Hr). apply Z.div_unique with (val256 r); lia.
+Qed.
+End Div.
+
+Lemma u256_div_exact u v : wf256 u -> wf256 v -> val256 v <> 0 ->
+  exists q, u256_div u v = Ok q /\ wf256 q /\ val256 q = val256 u / val256 v.
+Proof.
+  intros Hu Hv Hnz. pose proof (val256_range u Hu) as Ru. pose proof (val256_range v Hv) as Rv.
+  unfold u256_div, u256_div_gen. rewrite (u256_iszero_spec v Hv).
+  destruct (val256 v =? 0) eqn:E0; [apply Z.eqb_eq in E0; lia|].
+  rewrite (u256_iszero_spec u Hu), (u256_lt_spec u v Hu Hv).
+  assert (H0w : wf256 (mk256 0 0 0 0)) by (unfold wf256; cbn [q0 q1 q2 q3]; rewrite W_val; lia).
+  destruct ((val256 u =? 0) || (val256 u <? val256 v)) eqn:E1.
+  - exists (mk256 0 0 0 0). split; [reflexivity|]. split; [assumption|].
+    change (val256 (mk256 0 0 0 0)) with 0. symmetry. apply Z.div_small.
+    apply orb_true_iff in E1. destruct E1 as [E1|E1]; [apply Z.eqb_eq in E1|apply Z.ltb_lt in E1]; lia.
+  - apply orb_false_iff in E1. destruct E1 as [E1 E2]. apply Z.eqb_neq in E1. apply Z.ltb_ge in E2.
+    assert (H1w : wf256 (mk256 0 0 0 1)) by (unfold wf256; cbn [q0 q1 q2 q3]; rewrite W_val; lia).
+    rewrite (u256_cmp_spec v _ Hv H1w). change (val256 (mk256 0 0 0 1)) with 1.
+    destruct (Z.compare_spec (val256 v) 1) as [C|C|C]; cbn [Z.eqb].
+    + exists u. split; [reflexivity|]. split; [assumption|]. rewrite C, Z.div_1_r. reflexivity.
+    + lia.
+    + apply (div_outer_spec v Hv ltac:(lia) u Hu 257 (mk256 0 0 0 0) u H0w Hu).
+      * change (val256 (mk256 0 0 0 0)) with 0. lia.
+      * rewrite W4_val in Ru. change (Z.of_nat 257) with 257. lia.
+      * lia.
+Qed.
+
+Lemma u256_div_orig_refuted :
+  exists u v, wf256 u /\ wf256 v /\ val256 v <> 0 /\ u256_div_orig u v = OutOfFuel.
+Proof.
+  exists (mk256 (W-1) (W-1) (W-1) (W-1)), (mk256 0 0 0 2). unfold wf256; cbn [q0 q1 q2 q3]. rewrite W_val.
+  split; [lia|]. split; [lia|]. split; [vm_compute; discriminate|vm_compute; reflexivity].
+Qed.
+
+(* ------------------------------------------------------------------ *)
+
+Lemma div64_some hi lo y : 0 <= hi < y -> div64 hi lo y = Some ((hi * W + lo) / y, (hi * W + lo) mod y).
+Proof. intros H. unfold div64. replace (y =? 0) with false by lia. replace (y <=? hi) with false by lia. reflexivity. Qed.
+
+Lemma u128_quorem64_exact u v : wf128 u -> inW v -> v <> 0 ->
+  exists q r, u128_quorem64 u v = Ok (q, r) /\ wf128 q /\ val128 q = val128 u / v /\ r = val128 u mod v.
+Proof.
+  destruct u as [w1 w0]. unfold wf128, inW, val128, u128_quorem64; cbn [h1 h0]. intros [H1 H0] Hv Hnz.
+  pose proof W_pos as WP.
+  destruct (w1 <? v) eqn:E.
+  - apply Z.ltb_lt in E. rewrite div64_some by lia.
+    eexists _, _. split; [reflexivity|]. cbn [h1 h0].
+    assert (0 <= (w1 * W + w0) / v < W).
+    { split; [apply Z.div_pos; nia|apply Z.div_lt_upper_bound; nia]. }
+    split; [lia|]. split; [lia|reflexivity].
+  - apply Z.ltb_ge in E. rewrite div64_some by lia. rewrite Z.mul_0_l, Z.add_0_l.
+    pose proof (Z.mod_pos_bound w1 v ltac:(lia)) as B.
+    rewrite div64_some by lia.
+    eexists _, _. split; [reflexivity|]. cbn [h1 h0].
+    pose proof (Z.div_mod w1 v Hnz) as D1.
+    pose proof (Z.div_mod (w1 mod v * W + w0) v Hnz) as D0.
+    pose proof (Z.mod_pos_bound (w1 mod v * W + w0) v ltac:(lia)) as B0.
+    set (q1 := w1 / v) in *. set (r1 := w1 mod v) in *.
+    set (q0 := (r1 * W + w0) / v) in *. set (r0 := (r1 * W + w0) mod v) in *.
+    assert (0 <= q1 < W) by (subst q1; split; [apply Z.div_pos; lia|apply Z.div_lt_upper_bound; nia]).
+    assert (0 <= q0 < W) by (subst q0; split; [apply Z.div_pos; nia|apply Z.div_lt_upper_bound; nia]).
+    split; [lia|].
+    assert (EQ : w1 * W + w0 = v * (q1 * W + q0) + r0) by (rewrite D1 at 1; nia).
+    split; [apply Z.div_unique with r0; [left; lia|exact EQ]|apply Z.mod_unique with (q1 * W + q0); [left; lia|exact EQ]].
+Qed.
+
